@@ -177,7 +177,10 @@ def one_case(rng, res):
         scen.drop_root(root)
 
 
-MALFORMED_SETS = [[], (), "", [("A", "x")], (("A", "x"),), [["A", "x"]], "A=x", 5, {"A"}, ["A"], [{"A": "x"}]]
+import pathlib as _pl
+# (also dictionaries whose values / names are objects that merely *render* as text: a path object, bytes, a number)
+MALFORMED_SETS = [[], {"A": _pl.PurePosixPath("x.txt")}, (), "", {"A": b"x"}, [("A", "x")], (("A", "x"),), {_pl.PurePosixPath("A"): "x"},
+                  [["A", "x"]], "A=x", 5, {"A": 1.5}, {"A"}, ["A"], [{"A": "x"}], {"A": _pl.Path("x")}, {"A": ["x"]}, {"A": None}]
 
 
 def malformed_set_case(rng, res, case_no=None):
@@ -305,7 +308,8 @@ def shard(seed, idx, n, tier):
             one_sequence(rng, res)
         else:
             one_case(rng, res)
-    malformed_set_case(rng, res, case_no=idx)
+    for j_ in range(3):
+        malformed_set_case(rng, res, case_no=idx * 3 + j_)
     return res
 
 
